@@ -88,8 +88,10 @@ func httpServeContent(w http.ResponseWriter, r *http.Request, modtime time.Time,
 	}
 
 	// We only support a single range request, if more than one is submitted we just send back the first
+	start := int64(0)
 	if len(ranges) > 0 {
 		ra := ranges[0]
+		start = ra.start
 		// RFC 7233, Section 4.1:
 		// "If a single part is being transferred, the server
 		// generating the 206 response MUST generate a
@@ -105,6 +107,22 @@ func httpServeContent(w http.ResponseWriter, r *http.Request, modtime time.Time,
 		sendSize = ra.length
 		code = http.StatusPartialContent
 		w.Header().Set("Content-Range", ra.contentRange(size))
+	}
+
+	// Callers position content at the start of the first range of the Range
+	// header as parsed without knowing the size (parseRangeWithoutLength).
+	// What is served here can start elsewhere: leading unsatisfiable ranges
+	// are skipped, and If-Range or the total-size heuristic above can disable
+	// the Range header altogether. Re-position seekable content so that the
+	// body always matches the status and Content-Range being sent.
+	if s, ok := content.(io.Seeker); ok && r.Method != http.MethodHead {
+		if pos, err := s.Seek(0, io.SeekCurrent); err == nil && pos != start {
+			if _, err := s.Seek(start, io.SeekStart); err != nil {
+				w.Header().Del("Content-Range")
+				http.Error(w, "could not seek to the start of the response: "+err.Error(), http.StatusInternalServerError)
+				return
+			}
+		}
 	}
 
 	w.Header().Set("Accept-Ranges", "bytes")
